@@ -90,6 +90,26 @@ func c03Scenarios(tier string) []*hist.Scenario {
 			})
 		}
 	}
+	// a replica that already applied a removal as a change and is then caught
+	// up by a snapshot (threshold 2: it falls three changes behind), while a
+	// third client still holds an unsent edit anchored inside the removed
+	// content: client 0 removes and writes on, client 1 only reads, client 2
+	// inserts once (seeded change C03-4: a collection pass after the snapshot)
+	for _, tr := range []struct {
+		fam           string
+		init          []string
+		rm, bump, ins string
+	}{
+		{"txt", []string{"init.t"}, "t.delM", "t.ins0", "t.insM"},
+		{"tree", []string{"init.tr"}, "tr.delP0", "tr.insTE", "tr.insT1"},
+		{"arr", []string{"init.a"}, "a.delM", "a.push", "a.ins1"},
+	} {
+		out = append(out, &hist.Scenario{
+			Name: fmt.Sprintf("c03/%s/snapshot-fed-reader/%s+%s|%s/snap2-2/N3K4Y4", tr.fam, tr.rm, tr.bump, tr.ins),
+			N:    3, Init: tr.init, Alphabet: []string{tr.rm, tr.bump, tr.ins}, PerClient: [][]string{{tr.rm, tr.bump}, {}, {tr.ins}},
+			K: 4, Y: 4, EditCaps: []int{3, 0, 1}, SyncCaps: []int{2, 2, 0}, Cfg: hist.Config{Threshold: 2, Interval: 2},
+		})
+	}
 	if tier == "quick" {
 		return out
 	}
